@@ -32,6 +32,7 @@ def main(tier):
     for (i, s), g in zip(cases, gid):
         members.setdefault(g, []).append(i)
     kinds = {}
+    neg_known = []
     for g, ids in members.items():
         kind = groups[g][0]
         kinds[kind] = kinds.get(kind, 0) + 1
@@ -42,6 +43,14 @@ def main(tier):
             key = json.dumps([r["outcome"], r.get("tokens"), attr.classify(r.get("message", "")) if r["outcome"] == "err" else None])
             outs.setdefault(key, []).append(i)
         refused = [i for i in ids if real[i]["outcome"] != "ok"]
+        if kind == "negative number as expression" and len(outs) > 1 and not refused:
+            known = [k for k in common.known_findings() if k.get("status") == "open" and k.get("property") == "C14"
+                     and k.get("matcher", {}).get("kind") == "negative-number-default-expression"]
+            toks = sorted({(real[v[0]].get("tokens") or "") for v in outs.values()}, key=len)
+            # the finding: the spellings differ in exactly the Into conversion around the number
+            if known and len(toks) == 2 and ":: core :: convert :: Into :: into" in toks[1] and ":: core :: convert :: Into :: into" not in toks[0]:
+                neg_known.append(cases[outs[sorted(outs)[0]][0]][1].split("\n")[-1][:80])
+                continue
         if len(outs) > 1 or refused:
             ex = [cases[v[0]][1] for v in outs.values()][:3]
             tie["failing"].append({"what": ("documented spellings of one request expand differently (%s)" % kind) if len(outs) > 1
@@ -60,6 +69,9 @@ def main(tier):
             tie["broken"].append("B3 (%s): %s" % (kind, bad[0][:200]))
             tie["broken_details"].append({"rust_source": cases[ids[0]][1], "disagreement": bad})
         tie["distinct_nontrivial"] += 1
+    if neg_known:
+        tie["known"].append("a negative number as Default expression is converted with Into in the `= -N` spelling at the end of its list and used "
+                            "as written in the `(-N)` spelling or before another parameter (%d spelling groups)" % len(neg_known))
     tie["failing"] = tie["failing"][:3]
     tie["broken"] = tie["broken"][:3]
     tie["extra"]["groups_by_kind"] = kinds
